@@ -16,6 +16,17 @@ pub struct STerm {
     pub lookahead: Option<(bool, Rx, Quote)>,
     /// scanner states (indices) the terminal belongs to; empty = INITIAL only
     pub states: Vec<usize>,
+    /// state lists of further occurrences of the same terminal (each: empty = INITIAL only);
+    /// the terminal belongs to the union of all its occurrences' states
+    #[serde(default)]
+    pub extra_states: Vec<Vec<usize>>,
+}
+
+impl STerm {
+    pub fn in_mode(&self, mi: usize) -> bool {
+        let one = |s: &Vec<usize>| if s.is_empty() { mi == 0 } else { s.contains(&mi) };
+        one(&self.states) || self.extra_states.iter().any(one)
+    }
 }
 
 #[derive(Clone, Debug, Serialize, Deserialize, PartialEq)]
@@ -43,6 +54,9 @@ pub struct ScanCase {
     pub modes: Vec<SMode>,
     pub lr: bool,
     pub inputs: Vec<String>,
+    /// index of the marker terminal that introduces the production with the further occurrences
+    #[serde(default)]
+    pub marker: Option<usize>,
 }
 
 fn lit_of(rx: &Rx, q: Quote) -> Lit {
@@ -80,7 +94,10 @@ impl ScanCase {
     pub fn grammar(&self) -> Grammar {
         let state_name = |i: usize| self.modes[i].name.clone();
         let mut prods = vec![];
-        let alts: Alts = (0..self.terms.len()).map(|i| vec![Factor::n(&Self::term_name(i))]).collect();
+        let mut alts: Alts = (0..self.terms.len()).filter(|i| Some(*i) != self.marker).map(|i| vec![Factor::n(&Self::term_name(i))]).collect();
+        if let Some(m) = self.marker {
+            alts.push(vec![Factor::n(&Self::term_name(m)), Factor::n("Extra")]);
+        }
         prods.push(Prod { lhs: "Start".into(), alts: vec![vec![Factor::Rep(alts)]] });
         for (i, t) in self.terms.iter().enumerate() {
             let term = Term {
@@ -90,6 +107,25 @@ impl ScanCase {
             };
             let states = t.states.iter().map(|s| state_name(*s)).collect();
             prods.push(Prod { lhs: Self::term_name(i), alts: vec![vec![Factor::T { term, states, ann: Ann::default() }]] });
+        }
+        if self.marker.is_some() {
+            // further occurrences of terminals, with their own state lists, behind the marker
+            let mut alts: Alts = vec![];
+            for t in &self.terms {
+                for st in &t.extra_states {
+                    let term = Term {
+                        lit: lit_of(&t.rx, t.quote),
+                        lookahead: t.lookahead.as_ref().map(|(p, r, q)| (*p, lit_of(r, *q))),
+                        sample: String::new(),
+                    };
+                    alts.push(vec![Factor::T { term, states: st.iter().map(|s| state_name(*s)).collect(), ann: Ann::default() }]);
+                }
+            }
+            if alts.len() == 1 {
+                // a production consisting of one terminal would be a second "token alias"
+                alts = vec![vec![Factor::Group(alts)]];
+            }
+            prods.push(Prod { lhs: "Extra".into(), alts });
         }
         let mut g = Grammar::new("Start", prods);
         if self.lr {
@@ -138,7 +174,7 @@ impl ScanCase {
                     .terms
                     .iter()
                     .enumerate()
-                    .filter(|(_, t)| if t.states.is_empty() { mi == 0 } else { t.states.contains(&mi) })
+                    .filter(|(_, t)| t.in_mode(mi))
                     .map(|(i, t)| RefTerm { ty: 5 + i as u16, rx: t.rx.clone(), lookahead: t.lookahead.as_ref().map(|(p, r, _)| (*p, r.clone())) })
                     .collect(),
                 transitions: m
@@ -174,11 +210,13 @@ pub struct ScanParams {
     pub comments: bool,
     pub flags: bool,
     pub lr: bool,
+    /// further occurrences of terminals with other scanner state lists
+    pub multi_occ: bool,
 }
 
 impl Default for ScanParams {
     fn default() -> Self {
-        ScanParams { max_terms: 5, max_modes: 3, lookaheads: true, comments: true, flags: true, lr: false }
+        ScanParams { max_terms: 5, max_modes: 3, lookaheads: true, comments: true, flags: true, lr: false, multi_occ: false }
     }
 }
 
@@ -227,7 +265,7 @@ pub fn gen_scan_case(gt: &[u16], its: &[Vec<u16>], p: &ScanParams) -> ScanCase {
         } else {
             vec![]
         };
-        terms.push(STerm { rx, quote, lookahead, states });
+        terms.push(STerm { rx, quote, lookahead, states, extra_states: vec![] });
     }
     // parol rejects scanner states without terminals: give every state at least one
     for mi in 1..n_modes {
@@ -238,6 +276,26 @@ pub fn gen_scan_case(gt: &[u16], its: &[Vec<u16>], p: &ScanParams) -> ScanCase {
             }
             terms[i].states.push(mi);
             terms[i].states.sort();
+        }
+    }
+    // further occurrences of one or two terminals with another state list, introduced by a
+    // marker terminal that belongs to every state
+    let mut marker = None;
+    if p.multi_occ && n_modes > 1 && t.next(3) == 2 {
+        let mrx = Rx::Seq("c0c0".chars().map(Rx::Lit).collect());
+        if !terms.iter().any(|x| x.rx == mrx) {
+            for _ in 0..1 + t.next(2) {
+                let i = t.next(terms.len());
+                let mut st: Vec<usize> = (0..n_modes).filter(|_| t.next(2) == 0).collect();
+                if t.next(3) == 0 {
+                    st.clear();
+                }
+                if terms[i].extra_states.is_empty() {
+                    terms[i].extra_states.push(st);
+                }
+            }
+            terms.push(STerm { rx: mrx, quote: Quote::Raw, lookahead: None, states: (0..n_modes).collect(), extra_states: vec![] });
+            marker = Some(terms.len() - 1);
         }
     }
     let mut modes: Vec<SMode> = vec![];
@@ -260,7 +318,7 @@ pub fn gen_scan_case(gt: &[u16], its: &[Vec<u16>], p: &ScanParams) -> ScanCase {
         if n_modes > 1 {
             for _ in 0..t.next(3) {
                 // a transition on a terminal that belongs to this mode
-                let cands: Vec<usize> = (0..terms.len()).filter(|i| if terms[*i].states.is_empty() { mi == 0 } else { terms[*i].states.contains(&mi) }).collect();
+                let cands: Vec<usize> = (0..terms.len()).filter(|i| terms[*i].in_mode(mi)).collect();
                 if cands.is_empty() {
                     break;
                 }
@@ -278,7 +336,7 @@ pub fn gen_scan_case(gt: &[u16], its: &[Vec<u16>], p: &ScanParams) -> ScanCase {
         }
         modes.push(m);
     }
-    let case0 = ScanCase { terms, modes, lr: p.lr, inputs: vec![] };
+    let case0 = ScanCase { terms, modes, lr: p.lr, inputs: vec![], marker };
     let inputs = its.iter().map(|tp| gen_input(&case0, tp)).collect();
     ScanCase { inputs, ..case0 }
 }
